@@ -34,19 +34,46 @@ COVERAGE_TARGETS = [f'{op}:ok:{st}' for st in ('list', 'dict') for op in
                    ['popIdx:err:list', 'popKey:err:dict', 'remove:err:list', 'assign:err:list', 'assign:err:dict']
 
 
+class _Named:
+    """an object that `_named_objs` labels by its `name` attribute (hashable by identity, equal only to itself)"""
+    def __init__(self, k):
+        self.k = k
+        self.name = f'n{k}'
+
+    def __repr__(self):
+        return f'<named {self.k}>'
+
+
+_NAMED = {}          # model object -> the one Python object standing for it in the running case
+
+
 def _o(v):
     """model object -> Python object: 0 stands for None; object k > 0 for the integer 1000*k, handed over as a
     *fresh* Python int every time (outside CPython's small-int cache): equal to but not identical with the
     ones handed over before - the model's objects are compared with `==`, as `list.index/remove/in` do;
-    object -k for the *string* str(1000*k): a different object with the same `str` (a name collision)"""
+    object -k for the *string* str(1000*k): a different object with the same `str` (a name collision);
+    900..909: the set {1000*k}, fresh each time - an *unhashable* object (`_named_objs` finds its name by
+    identity); 910..919: an object with a `name` attribute, one Python object per case (equal only to itself)"""
     if v == 0:
         return None
+    if 900 <= v < 910:
+        return {int(str(1000 * v))}
+    if 910 <= v < 920:
+        if v not in _NAMED:
+            _NAMED[v] = _Named(v)
+        return _NAMED[v]
     return int(str(1000 * v)) if v > 0 else str(1000 * -v)
 
 
 def _i(v):
     if v is None:
         return 0
+    if isinstance(v, _Named):
+        return v.k
+    if isinstance(v, (set, frozenset)):
+        (x,) = tuple(v)
+        assert x % 1000 == 0 and 900 <= x // 1000 < 910, v
+        return x // 1000
     if isinstance(v, str):
         assert v.isdigit() and int(v) % 1000 == 0, v
         return -(int(v) // 1000)
@@ -79,6 +106,7 @@ def _views(p, inst, log, ret, err, universe, check, kind, chg=True, held=True):
 
 def run_impl(case):
     import param
+    _NAMED.clear()
     kind, decl = case['kind'], case['decl']
     objs = {k: _o(v) for k, v in decl['names']} if decl['names'] is not None else [_o(v) for v in decl['objs']]
     if decl['names'] is not None and decl.get('mapping') == 'proxy':
@@ -99,12 +127,18 @@ def run_impl(case):
         inst.param.watch(lambda e: nchanged.__setitem__(0, nchanged[0] + 1), 's', what='objects')
 
         def chg_ok():
-            """one call of the changes-only watcher per notification whose payload differs in Python's sense"""
+            """one call of the changes-only watcher per notification whose payload differs: containers of the same
+            type compared item by item, the items by `==` - except objects of a class `Comparator` has no rule for
+            (here: the named objects), which it never finds equal, not even to themselves"""
             def same(a, b):
                 if type(a) is not type(b):
                     return False
-                if isinstance(a, list):
-                    return list.__eq__(a, b) is True
+                if isinstance(a, (list, tuple)):
+                    return len(a) == len(b) and all(same(x, y) for x, y in zip(list.__iter__(a) if isinstance(a, list) else a, list.__iter__(b) if isinstance(b, list) else b))
+                if isinstance(a, dict):
+                    return len(a) == len(b) and all(k in b and same(v, b[k]) for k, v in a.items())
+                if isinstance(a, _Named):
+                    return False
                 return a == b
             want = sum(0 if same(a, b) else 1 for a, b in raw)
             return nchanged[0] == want
@@ -197,6 +231,9 @@ def _decls():
     yield 'Selector', {'objs': [0, 1], 'names': None, 'check_on_set': True}
     yield 'Selector', {'objs': [1, 2], 'names': None, 'check_on_set': False}
     yield 'Selector', {'objs': [1, 2], 'names': [['a', 1], ['b', 2]], 'check_on_set': False}
+    # an unhashable object (a set) and an object labelled by its `name` attribute (`_named_objs`)
+    yield 'Selector', {'objs': [900, 910, 2], 'names': None, 'check_on_set': True}
+    yield 'Selector', {'objs': [900, 910, 2], 'names': [['a', 900], ['b', 910], ['c', 2]], 'check_on_set': True}
     # two unique objects with the same str(): the integer 1000 and the string '1000'
     yield 'Selector', {'objs': [1, -1, 2], 'names': None, 'check_on_set': True}
     yield 'Selector', {'objs': [1, -1], 'names': [['a', 1], ['b', -1]], 'check_on_set': True}
@@ -249,19 +286,34 @@ def _random_case(rng):
     style = rng.choice(['list', 'dict'])
     n = rng.randint(0, 4)
     objs = rng.sample(range(0, 9) if rng.random() < 0.85 else range(-3, 6), n)          # 0 = None, -k = the string str(1000*k)
+    special = rng.random() < 0.2         # sets (unhashable) and objects with a `name` among the objects
+    if special and n:
+        for j, sp in zip(rng.sample(range(n), min(n, 2)), rng.sample([900, 901, 910, 911], 2)):
+            objs[j] = sp
     keys = rng.sample(['a', 'b', 'c', 'd', 'e', 'f', 'g', ''], n)
     decl = {'objs': objs, 'names': [[k, v] for k, v in zip(keys, objs)] if style == 'dict' else None,
             'check_on_set': rng.random() < 0.8}
     # generator-side shadow of the current contents, only used to draw mostly valid ops
     cur, names = list(objs), (dict(zip(keys, objs)) if style == 'dict' else {})
     fresh = itertools.count(20)
+    used_special = set()
     ops = []
     malformed = rng.random() < 0.15
     for _ in range(rng.randint(1, 25)):
         st = style
         if malformed and rng.random() < 0.3:
             st = 'dict' if style == 'list' else 'list'
-        newo = (lambda: next(fresh)) if not (malformed and rng.random() < 0.3) else (lambda: rng.choice(cur or [1]))
+        # (a malformed history may hand over an object equal to one already there - but never one of the special
+        # objects: sets are found by identity in `_named_objs`, which the `==`-based model cannot follow even for
+        # the first such operation)
+        newo = (lambda: next(fresh)) if not (malformed and rng.random() < 0.3) else (lambda: rng.choice([x for x in cur if x < 900] or [1]))
+        if special and rng.random() < 0.25:
+            cands = [x for x in (900, 901, 902, 910, 911, 912) if x not in used_special and x not in objs]
+            if cands:
+                # each special object is put in at most once per case (then fresh integers)
+                c = rng.choice(cands)
+                used_special.add(c)
+                newo = (lambda it=iter([c]): next(it, None) or next(fresh))
         idx = lambda: rng.choice([0, -1, 1, 2, -2, rng.randint(-6, 6)])
         existing = lambda: (rng.choice(cur) if cur and rng.random() < 0.85 else rng.choice([99, 0]))
         ekey = lambda: (rng.choice(list(names)) if names and rng.random() < 0.8 else rng.choice(['a', 'b', 'c', 'x', 'y', 'z', '']))
